@@ -27,8 +27,15 @@ NodeTags(e) ==
        [] OTHER -> {"k:" \o e.k})
     \cup UNION {NodeTags(e.a[i]) : i \in DOMAIN e.a}
 SeqTags(s) == UNION {NodeTags(s[i]) : i \in DOMAIN s}
-ProgTags(P) == SeqTags(P.eqs) \cup {"initial:" \o t : t \in SeqTags(P.ieqs)}
+(* a subscripted reference with fewer subscripts than declared dimensions *)
+DeclDims(P, name) == IF \E i \in DOMAIN P.comps : P.comps[i].name = name
+                     THEN P.comps[CHOOSE i \in DOMAIN P.comps : P.comps[i].name = name].dims ELSE <<>>
+RECURSIVE PartialIn(_, _)
+PartialIn(e, P) == (e.k = "ref" /\ e.a # <<>> /\ Len(e.a) < Len(DeclDims(P, e.n)))
+                   \/ \E i \in DOMAIN e.a : PartialIn(e.a[i], P)
+ProgTags(P) == SeqTags(P.eqs) \cup SeqTags(P.ieqs) \cup (IF P.ieqs # <<>> THEN {"initial"} ELSE {})
                \cup UNION {{"fn:" \o t : t \in SeqTags(P.funcs[i].body)} : i \in DOMAIN P.funcs}
+               \cup (IF \E i \in DOMAIN P.eqs : PartialIn(P.eqs[i], P) THEN {"partial-subscript"} ELSE {})
 TagsOf(it) == {"fam:" \o it.fam} \cup it.extra \cup ProgTags(it.prog)
 
 -----------------------------------------------------------------------------
@@ -41,10 +48,10 @@ ArithOps == {"+", "-", "*", "/", "^"}
 RelOps   == {"<", "<=", ">", ">=", "=="}
 LogOps   == {"and", "or"}
 
-LeafAll(tier)   == {Ref("x"), Ref("y"), Ref("p"), Ref("c"), Ref("u"), Ref("k"), Ref("time"), Der(Ref("x")),
-              ILit(2), Lit(Q(1, 2))}
-LeafInner(tier) == IF tier = "quick" THEN {Ref("x"), Ref("y"), ILit(2)} ELSE {Ref("x"), Ref("y"), Ref("k"), Ref("time"), ILit(2), Lit(Q(1, 2))}
-LeafOuter(tier) == IF tier = "quick" THEN {Ref("y"), Ref("p"), Lit(Q(1, 2))} ELSE {Ref("y"), Ref("p"), Ref("c"), Ref("u"), Der(Ref("x")), ILit(3)}
+LeafAll(tier)   == IF tier = "quick" THEN {Ref("x"), Ref("p"), Ref("c"), Ref("u"), Ref("k"), Ref("time"), Der(Ref("x")), Lit(Q(1, 2))}
+                   ELSE {Ref("x"), Ref("y"), Ref("p"), Ref("c"), Ref("u"), Ref("k"), Ref("time"), Der(Ref("x")), ILit(2), Lit(Q(1, 2))}
+LeafInner(tier) == IF tier = "quick" THEN {Ref("x"), ILit(2)} ELSE {Ref("x"), Ref("y"), Ref("k"), Ref("time"), ILit(2), Lit(Q(1, 2))}
+LeafOuter(tier) == IF tier = "quick" THEN {Ref("y"), Lit(Q(1, 2))} ELSE {Ref("y"), Ref("p"), Ref("c"), Ref("u"), Der(Ref("x")), ILit(3)}
 
 NumOp(op, a, b) == IF op \in {"min", "max"} THEN Call(op, <<a, b>>) ELSE Bin(op, a, b)
 NumBin == ArithOps \cup {"min", "max"}
@@ -53,25 +60,37 @@ Num1(L)  == {NumOp(op, a, b) : op \in NumBin, a \in L, b \in L}
             \cup {Un("-", a) : a \in L} \cup {Call(f, <<a>>) : f \in {"abs", "floor", "ceil", "sign"}, a \in L}
 Bool1(L) == {Bin(op, a, b) : op \in RelOps, a \in L, b \in L}
 
-(* depth 1 over all leaves; depth 2: an inner depth-1 tree in either operand position *)
+(* depth 1 over all leaves; depth 2: an inner depth-1 tree in either operand position.
+   quick keeps every operator PAIR but fewer leaf assignments.                         *)
+Num1Q(L, L2) == {NumOp(op, a, b) : op \in NumBin, a \in L, b \in L2} \cup {NumOp(op, b, a) : op \in NumBin, a \in L, b \in L2}
+                \cup {Un("-", a) : a \in L} \cup {Call(f, <<a>>) : f \in {"abs", "floor", "ceil", "sign"}, a \in L}
+Bool1Q(L, L2) == {Bin(op, a, b) : op \in RelOps, a \in L, b \in L2} \cup {Bin(op, b, a) : op \in RelOps, a \in L, b \in L2}
+Inner1(tier) == IF tier = "quick"
+                THEN {NumOp(op, a, b) : op \in NumBin, a \in {Ref("x")}, b \in {ILit(2)}} \cup {NumOp(op, b, a) : op \in NumBin, a \in {Ref("x")}, b \in {ILit(2)}}
+                     \cup {Un("-", Ref("x"))} \cup {Call(f, <<Ref("x")>>) : f \in {"abs", "floor", "ceil", "sign"}}
+                ELSE Num1(LeafInner(tier))
+CondA(tier) == IF tier = "quick" THEN {Bin(op, Ref("x"), Ref("y")) : op \in RelOps} ELSE Bool1({Ref("x"), Ref("y")})
+CondB(tier) == IF tier = "quick" THEN {Bin("<", Ref("y"), Ref("p")), Bin(">=", Ref("y"), Ref("p")), Bin("==", Ref("y"), Ref("p"))}
+               ELSE Bool1({Ref("y"), Ref("p")})
+CondI(tier) == IF tier = "quick" THEN CondA(tier) \cup {Bin(">", Ref("x"), ILit(2)), Bin("<=", ILit(2), Ref("x"))} ELSE Bool1(LeafInner(tier))
 NumExprs(tier) ==
-    Num1(LeafAll(tier))
-    \cup {NumOp(op, a, b) : op \in NumBin, a \in Num1(LeafInner(tier)), b \in LeafOuter(tier)}
-    \cup {NumOp(op, b, a) : op \in NumBin, a \in Num1(LeafInner(tier)), b \in LeafOuter(tier)}
-    \cup {Un("-", a) : a \in Num1(LeafInner(tier))}
-    \cup {Call("abs", <<a>>) : a \in Num1(LeafInner(tier))}
-    \cup {If(c, a, b) : c \in Bool1(LeafInner(tier)), a \in LeafOuter(tier), b \in LeafOuter(tier)}
-    \cup {If(Ref("b"), a, b) : a \in Num1(LeafInner(tier)), b \in LeafOuter(tier)}
-    \cup {IfE(<<c1, ILit(1), c2, ILit(2), ILit(3)>>) : c1 \in Bool1({Ref("x"), Ref("y")}), c2 \in Bool1({Ref("y"), Ref("p")})}
+    (IF tier = "quick" THEN Num1Q(LeafAll(tier), {Ref("y"), ILit(2)}) ELSE Num1(LeafAll(tier)))
+    \cup {NumOp(op, a, b) : op \in NumBin, a \in Inner1(tier), b \in LeafOuter(tier)}
+    \cup {NumOp(op, b, a) : op \in NumBin, a \in Inner1(tier), b \in LeafOuter(tier)}
+    \cup {Un("-", a) : a \in Inner1(tier)}
+    \cup {Call("abs", <<a>>) : a \in Inner1(tier)}
+    \cup {If(c, a, b) : c \in CondI(tier), a \in LeafOuter(tier), b \in LeafOuter(tier)}
+    \cup {If(Ref("b"), a, b) : a \in Inner1(tier), b \in LeafOuter(tier)}
+    \cup {IfE(<<c1, ILit(1), c2, ILit(2), ILit(3)>>) : c1 \in CondA(tier), c2 \in CondB(tier)}
 BoolExprs(tier) ==
-    Bool1(LeafAll(tier))
-    \cup {Bin(op, a, b) : op \in RelOps, a \in Num1(LeafInner(tier)), b \in LeafOuter(tier)}
-    \cup {Bin(op, b, a) : op \in RelOps, a \in Num1(LeafInner(tier)), b \in LeafOuter(tier)}
-    \cup {Bin(op, c1, c2) : op \in LogOps, c1 \in Bool1(LeafInner(tier)), c2 \in Bool1({Ref("y"), Ref("p")})}
-    \cup {Bin(op, Ref("b"), c) : op \in LogOps, c \in Bool1(LeafInner(tier))}
-    \cup {Un("not", c) : c \in Bool1(LeafInner(tier)) \cup {Ref("b")}}
-    \cup {Un("not", Bin(op, c1, c2)) : op \in LogOps, c1 \in Bool1({Ref("x"), Ref("y")}), c2 \in Bool1({Ref("y"), Ref("p")})}
-    \cup {Bin(op, Un("not", c1), c2) : op \in LogOps, c1 \in Bool1({Ref("x"), Ref("y")}), c2 \in Bool1({Ref("y"), Ref("p")})}
+    (IF tier = "quick" THEN Bool1Q(LeafAll(tier), {Ref("y"), ILit(2)}) ELSE Bool1(LeafAll(tier)))
+    \cup {Bin(op, a, b) : op \in RelOps, a \in Inner1(tier), b \in LeafOuter(tier)}
+    \cup {Bin(op, b, a) : op \in RelOps, a \in Inner1(tier), b \in LeafOuter(tier)}
+    \cup {Bin(op, c1, c2) : op \in LogOps, c1 \in CondI(tier), c2 \in CondB(tier)}
+    \cup {Bin(op, Ref("b"), c) : op \in LogOps, c \in CondI(tier)}
+    \cup {Un("not", c) : c \in CondI(tier) \cup {Ref("b")}}
+    \cup {Un("not", Bin(op, c1, c2)) : op \in LogOps, c1 \in CondA(tier), c2 \in CondB(tier)}
+    \cup {Bin(op, Un("not", c1), c2) : op \in LogOps, c1 \in CondA(tier), c2 \in CondB(tier)}
 
 ExprItems(tier) ==
     {Item("expr", Prog(ExprComps, <<Eq(Ref("r"), e)>>, <<>>, <<>>), {"num"}) : e \in NumExprs(tier)}
@@ -109,8 +128,9 @@ VecEqs(n) ==    \* equation lists over z[n], w[n]
      <<Eq(Ref("z"), IfE(<<Bin(">", Ref("x"), Ref("y")), Ref("w"), Bin("*", I(2), Ref("w"))>>))>>}
     \cup {<<Eq(Idx("z", <<I(j)>>), Bin("+", Ref("x"), Idx("w", <<I(n + 1 - j)>>)))>> : j \in 1..n}
     \cup {<<Eq(Der(Idx("z", <<I(j)>>)), Idx("w", <<I(j)>>))>> : j \in 1..n}
-    \cup {<<Eq(Idx("z", <<Slice(I(a), I(b))>>), Idx("w", <<Slice(I(a2), I(a2 + b - a))>>))>> :
-              a \in 1..n, b \in 1..n, a2 \in 1..n}
+    \cup {<<Eq(Idx("z", <<Slice(I(ab[1]), I(ab[2]))>>), Idx("w", <<Slice(I(ab[3]), I(ab[3] + ab[2] - ab[1]))>>))>> :
+              ab \in {t \in (1..n) \X (1..n) \X (1..n) : t[2] >= t[1] /\ t[3] + t[2] - t[1] <= n}}
+    \cup (IF n >= 2 THEN {<<Eq(Idx("z", <<Slice(I(2), I(1))>>), Idx("w", <<Slice(I(n), I(n - 1))>>)), Eq(Ref("x"), Ref("y"))>>} ELSE {})
     \cup {<<Eq(Idx("z", <<Colon>>), Idx("w", <<Colon>>))>>}
     \cup {<<Eq(Ref("x"), Call("sum", <<Idx("z", <<Slice(I(a), I(b))>>)>>))>> : a \in 1..n, b \in 1..n}
     (* if-equations *)
@@ -134,7 +154,7 @@ VecEqs(n) ==    \* equation lists over z[n], w[n]
           THEN {<<ForEq("i", I(1), I(n - 1), <<Eq(Idx("z", <<Bin("+", Ri, I(1))>>), Idx("z", <<Ri>>))>>)>>,
                 <<ForEq("i", I(2), I(n), <<Eq(Idx("z", <<Bin("-", Ri, I(1))>>), Bin("*", Ri, Idx("w", <<Ri>>)))>>)>>,
                 <<ForStepEq("i", I(1), I(2), I(n), <<Eq(Idx("z", <<Ri>>), Bin("*", Ri, Ref("x")))>>)>>,
-                <<ForStepEq("i", I(n), I(-1), I(1), <<Eq(Idx("z", <<Ri>>), Bin("*", Ri, Ref("x")))>>)>>}
+                <<ForStepEq("i", I(1), I(1), I(n), <<Eq(Idx("z", <<Ri>>), Bin("+", Ri, Idx("w", <<Ri>>)))>>)>>}
           ELSE {})
 
 MatEqs(r, c) ==   \* A, B: r x c; v: c; q: r
@@ -145,8 +165,7 @@ MatEqs(r, c) ==   \* A, B: r x c; v: c; q: r
      <<Eq(Ref("A"), Bin(".*", Ref("A"), Ref("B")))>>,
      <<Eq(Ref("A"), Un("-", Ref("B")))>>,
      <<Eq(Der(Ref("A")), Ref("B"))>>,
-     <<Eq(Ref("A"), Arr([i \in 1..r |-> Arr([j \in 1..c |-> I(10 * i + j)])]))>>,
-     <<Eq(Ref("x"), Call("sum", <<Idx("A", <<I(1), Colon>>)>>))>>}
+     <<Eq(Ref("x"), Call("sum", <<Idx("A", <<Colon, I(1)>>)>>))>>}
     \cup {<<Eq(Idx("A", <<I(i), I(j)>>), Bin("-", Ref("x"), Idx("B", <<I(r + 1 - i), I(c + 1 - j)>>)))>> : i \in 1..r, j \in 1..c}
     \cup {<<Eq(Idx("A", <<I(i), Colon>>), Ref("v"))>> : i \in 1..r}
     \cup {<<Eq(Idx("A", <<Colon, I(j)>>), Ref("q"))>> : j \in 1..c}
@@ -261,7 +280,7 @@ IdxVecEqs(n) ==
 
 IdxMatEqs(r, c) ==
     {<<Eq(Ref("x"), Idx("A", <<I(i), I(j)>>))>> : i \in Win(r), j \in Win(c)}
-    \cup {<<Eq(Ref("x"), Call("sum", <<Idx("A", <<I(i), Slice(I(a), I(b))>>)>>))>> : i \in {0, 1, r, r + 1}, a \in Win(c), b \in Win(c)}
+    \cup {<<Eq(Idx("A", <<I(i), Slice(I(a), I(b))>>), Bin("*", I(2), Idx("A", <<I(i), Slice(I(a), I(b))>>)))>> : i \in {0, 1, r, r + 1}, a \in Win(c), b \in Win(c)}
     \cup {<<Eq(Ref("x"), Call("sum", <<Idx("A", <<Slice(I(a), I(b)), I(j)>>)>>))>> : j \in {0, 1, c, c + 1}, a \in Win(r), b \in Win(r)}
     \cup {<<Eq(Idx("A", <<Slice(I(a), I(b)), Colon>>), Bin("*", I(2), Idx("A", <<Slice(I(a), I(b)), Colon>>)))>> : a \in Win(r), b \in Win(r)}
     \cup {<<Eq(Ref("x"), Idx("A", <<I(1), I(1), I(1)>>))>>}
